@@ -44,6 +44,9 @@ func checkC15(c *Ctx) {
 		_, nv := sub.makeAppend("MAKE-APPEND", sub.AllFuncs(), "")
 		c.Control("MAKE-APPEND", nv == 1, "fixture.C15MakeAppend fills a slice made with a length through an appending method")
 	}
+	c.Decides("INDEX-SYNC: a loop of package tree that looks names up in a NodeIndex built before it and inserts nodes into the tree adds each inserted node to that index")
+	c.indexSync("INDEX-SYNC", c.AllFuncs("tree"))
+	c.Floor("INDEX-SYNC", 1)
 	c.Floor("MAKE-APPEND", 10)
 	c.Floor("FIELDS", 12)
 	c.Floor("ALIAS", 2)
